@@ -88,6 +88,9 @@ class Sched(object):
         for t in self.threads:
             if t.state == JOINING and t.join_target.state == DONE:
                 t.state = RUNNABLE
+            elif t.state == SLEEPING and t.join_target is not None and t.join_target.state == DONE:
+                t.state = RUNNABLE  # a timed join whose target ended before the time-out
+                t.wake = None
             elif t.state == BLOCKED and t.block_on.owner is None:
                 t.state = RUNNABLE
         run = [t for t in self.threads if t.state == RUNNABLE]
@@ -183,12 +186,19 @@ class Sched(object):
         t.os_thread.start()
         self.point("thread.start")
 
-    def join(self, t):
+    def join(self, t, timeout=None):
+        """join(): blocked until t is done.  join(timeout): additionally enabled as a timer that fires `timeout` later
+        (the joiner then goes on although t is still alive) - whether t finishes first is the schedule's choice."""
         cur = self._me()
         if t.state != DONE:
-            cur.state = JOINING
+            if timeout is None:
+                cur.state = JOINING
+            else:
+                cur.state = SLEEPING
+                cur.wake = self.clock_ms + int(round(max(0, timeout) * 1000))
             cur.join_target = t
         self.point("thread.join")
+        cur.join_target = None
 
     def _release_all(self, me):
         """abort: wake the main thread first (it drives the clean-up)"""
@@ -326,7 +336,7 @@ class FakeThread(object):
         self._s.start(self._lt)
 
     def join(self, timeout=None):
-        self._s.join(self._lt)
+        self._s.join(self._lt, timeout)
 
     def is_alive(self):
         return self._lt.state not in (DONE, NEW)
